@@ -156,6 +156,9 @@ func runEpisode(sc *Scenario) *Result {
 		}
 	}
 	dir, err := os.MkdirTemp(root, "sdfx-ep-")
+	if err != nil && root != workDir() {
+		dir, err = os.MkdirTemp(workDir(), "sdfx-ep-")
+	}
 	if err != nil {
 		return fail("harness-error", "tmpdir", err.Error())
 	}
